@@ -313,6 +313,7 @@ pub fn exec_spec(ctx: &mut Ctx, spec: &RunSpec, idx: u64) -> RunResult {
         violations,
         peak: ex.alloc.peak as u64,
         cpu_us: (ex.cpu_ns / 1000) as u64,
+        phase: (if spec.note.starts_with("sweep") { "fault-sweep" } else { "seeded-multi-fault" }).to_string(),
     }
 }
 
